@@ -42,7 +42,8 @@ Prod2(L1, L2, Mk(_, _)) ==
 
 SA == <<65>>  SB == <<66>>      \* Go field names A, B
 Tags == <<<<>>, <<97>>, <<97, 44, 109, 97, 121, 98, 101>>, <<44, 109, 97, 121, 98, 101>>, <<32, 97, 32, 44, 32, 77, 65, 89, 66, 69, 32>>,
-          <<97, 44, 109, 97, 121, 98, 101, 120>>>>     \* "", "a", "a,maybe", ",maybe", " a , MAYBE ", "a,maybex"
+          <<97, 44, 109, 97, 121, 98, 101, 120>>,     \* "", "a", "a,maybe", ",maybe", " a , MAYBE ", "a,maybex"
+          <<97, 44, 109, 97, 121, 98, 101, 44, 111, 109, 105, 116, 101, 109, 112, 116, 121>>, <<97, 44, 111, 109, 105, 116, 101, 109, 112, 116, 121, 44, 109, 97, 121, 98, 101>>, <<97, 44, 44, 109, 97, 121, 98, 101>>>>     \* "a,maybe,omitempty"  "a,omitempty,maybe"  "a,,maybe"
 Scalars == <<GNum("int", NInt(1)), GNum("int8", NInt(-2)), GNum("uint16", NInt(3)), GNum("float64", Fin(5, 1, 0)), GNum("float32", Fin(1, 1, 0)),
              GNum("int64", NInt(1073741823)), GNum("uint8", NInt(255)), GBool(TRUE), GStr(<<97>>), GStr(<<233>>), GStr(<<>>),
              GTime(86400, 0), GTime(90000, 0)>>
@@ -106,7 +107,7 @@ PI1 == GIface(GNum("int", NInt(1)))
 PIS == GIface(GStr(<<111, 110, 101>>))
 \* pairs of values of ONE Go struct type: two fields, every nil / non-nil / tagged combination
 PairField(tag, s) == <<FV(SA, tag, GPtrTo(s)), FV(SA, tag, GNilPtr(s.t))>>
-PairTags == <<<<120>>, <<120, 44, 109, 97, 121, 98, 101>>>>         \* "x"   "x,maybe"
+PairTags == <<<<120>>, <<120, 44, 109, 97, 121, 98, 101>>, <<120, 44, 109, 97, 121, 98, 101, 44, 111, 109, 105, 116, 101, 109, 112, 116, 121>>>>         \* "x"   "x,maybe"   "x,maybe,omitempty"
 PairStructs ==
   Concat(Map1(PairTags, LAMBDA tg : Concat(Map1(<<Few[1], Few[3]>>, LAMBDA s :
     LET fa == PairField(tg, s) IN
